@@ -50,7 +50,9 @@ def write_flat(dirpath, arr, parts, offset=0, ext='.dat', stem='raw', order='asc
     paths = []
     i = 0
     names = part_names(len(parts), 'asc' if order == 'samebase' else order, stem)
+    exts = ['.bin', '.dat', '.raw'] if ext == 'mixed' else [ext]     # all are flat raw formats
     for k, sz in enumerate(parts):
+        ext = exts[k % len(exts)]
         p = Path(dirpath) / (names[k] + ext)
         if order == 'samebase':
             # one folder per part, the same file name in each (recording1/continuous.dat, ...)
@@ -84,3 +86,32 @@ def rate_for_chunk(c):
     sr = c / traces.DEFAULT_CHUNK_DURATION
     assert int(round(traces.DEFAULT_CHUNK_DURATION * sr)) == c
     return sr
+
+
+class SparseRecording(object):
+    """A flat recording of more than 2**31 samples of which only the first and the last `block`
+    rows are really written (a sparse file: the hole in between reads as zeros and takes no
+    space).  `rows(idx)` is what the file holds at the given sample indices."""
+
+    def __init__(self, dirpath, n, nch=2, dtype='int16', block=64, name='long.bin', salt=0):
+        self.n, self.nch, self.block = n, nch, block
+        self.dtype = np.dtype(dtype)
+        self.head = values(block, nch, dtype, salt)
+        self.tail = values(block, nch, dtype, salt + 1)
+        self.path = Path(dirpath) / name
+        row = nch * self.dtype.itemsize
+        with open(self.path, 'wb') as f:
+            f.write(self.head.tobytes())
+            f.seek((n - block) * row)
+            f.write(self.tail.tobytes())
+        assert self.path.stat().st_size == n * row
+
+    def rows(self, idx):
+        idx = [int(i) % self.n if int(i) < 0 else int(i) for i in idx]
+        out = np.zeros((len(idx), self.nch), dtype=self.dtype)
+        for k, i in enumerate(idx):
+            if i < self.block:
+                out[k] = self.head[i]
+            elif i >= self.n - self.block:
+                out[k] = self.tail[i - (self.n - self.block)]
+        return out
